@@ -235,6 +235,48 @@ theorem C14_steady_witness_repaired :
         [.basic (.steady (some 0)), .protocol [(1, [("k", 1)]), (2, [("k", 2)])] 2]).1.segs
       = [100, 201/2, 101, 102, 103] := by decide +kernel
 
+/-! ## a solver failure INSIDE a protocol call -/
+
+/-- `simulate_protocol` on a live simulator at `T` whose solver fails in step `k` (0-based): exactly the explicit calls
+    `update_parameters(p₁); simulate(T+d₁); …` with the `k`-th `simulate` being the failing one — so the steps before `k` are
+    recorded as usual, step `k` records nothing and fails the simulator, and the parameter values of ALL LATER steps are
+    still applied (their `simulate` is ignored) — except that a FIRST step failing on a simulator without results ends the
+    call at once (`if self.variables is None: break`): the later steps' values are then not applied. -/
+theorem C14_protocol_failure_is_fold {σ} (S : Sys σ) (s : Sim σ) (steps : List PStep) (n k : Nat) (T : Rat)
+    (hwf : wfSteps steps = true) (he : s.errors = 0) (hT : reached? s.segs = .ok T) :
+    stepP S s (.protocolF steps n k) =
+      runStop S s (if k == 0 && s.segs.isNone then (expandProtocolF T n (some k) (normSteps steps)).take 2
+        else expandProtocolF T n (some k) (normSteps steps)) :=
+  simulateProtocolF_eq S s steps n k T hwf he hT
+
+/-- the same for `simulate_protocol_time_course` (after its argument checks) -/
+theorem C14_protocol_tc_failure_is_fold {σ} (S : Sys σ) (s : Sim σ) (steps : List PStep) (pts : List Rat)
+    (rel : Bool) (k : Nat) (T : Rat) (hwf : wfSteps steps = true) (he : s.errors = 0)
+    (hT : reached? s.segs = .ok T) :
+    stepP S s (.protocolTCF steps pts rel k) =
+      (if steps.isEmpty then (s, some .typeError) else
+       match (if rel then pts.map (· + T) else pts).getLast? with
+       | none => (s, some .indexError)
+       | some last =>
+         if last ≤ T then (s, some .valueError) else
+         runStop S s (if k == 0 && s.segs.isNone
+           then (expandProtocolTCF (if rel then pts.map (· + T) else pts) (some k) T (normSteps steps)).take 2
+           else expandProtocolTCF (if rel then pts.map (· + T) else pts) (some k) T (normSteps steps))) :=
+  simulateProtocolTCF_eq S s steps pts rel k T hwf he hT
+
+/-- what a failed protocol leaves behind (kernel-evaluated): a three-step protocol `k = 1, 2, 3` whose SECOND step fails after
+    an earlier `simulate(1)`: the first step is recorded (axis 0, 1, 2), nothing later, the simulator is failed, and the
+    model's parameter is left at the LAST step's value 3; the same protocol failing in its FIRST step on a fresh
+    simulator records nothing and leaves `k = 1`. -/
+theorem C14_protocol_failure_witness :
+    (let r := (runP termSys (Sim.init [("k", 5)] STerm.init)
+        [.basic (.simulate 1 (some 1)), .protocolF [(1, [("k", 1)]), (1, [("k", 2)]), (1, [("k", 3)])] 1 1]).1
+     times r.segs = [0, 1, 2] ∧ r.errors = 1 ∧ r.pars = [("k", 3)]) ∧
+    (let r := (runP termSys (Sim.init [("k", 5)] STerm.init)
+        [.protocolF [(1, [("k", 1)]), (1, [("k", 2)]), (1, [("k", 3)])] 1 0]).1
+     r.segs.isNone = true ∧ r.errors = 1 ∧ r.pars = [("k", 1)]) := by
+  constructor <;> decide +kernel
+
 /-! ## Non-vacuity -/
 
 /-- a continued history with an override before a relative time-course protocol is covered -/
